@@ -4,7 +4,8 @@ import multiprocessing
 import wire
 from wire import mk_fmt, cells
 from props.common import guarded, canon_cells_list, reply_fmt_list
-from props.widthenv import env_fields, text_of
+from props.widthenv import (env_fields, text_of, realize, shared_variants, shared_case_fields, pool_size, pool_object,
+                            safe_oracle, safe_impl)
 from curtsies.formatstring import linesplit
 
 PROP = "C16"
@@ -12,19 +13,20 @@ MODULES = ["Curtsies.Properties.C16"]
 RULE = ("exhaustive: every string of length <=5 (quick) / <=7 (thorough, sharded over processes) over "
         "{a, b, ' ', TAB, LF} x 4 run layouts (one run; two runs; one run per character with three partially "
         "overlapping attribute sets; four runs incl. an empty one) x columns 1..4, plus FmtStr() without runs and plain "
-        "str arguments; seeded random strings of length 6..24 with further Unicode whitespace, columns 1..9; tie-only: "
+        "str arguments; FmtStr values sharing Chunk objects by identity (f*2, f*3, f+f, join with repeated item/separator, "
+        "whole-run slices concatenated; strings <=3) and objects from random public-API programs (common.api_pool); "
+        "seeded random strings of length 6..24 with further Unicode whitespace, columns 1..9; tie-only: "
         "columns 0. non-trivial = distinct case with at least one word")
 ASSUMPTIONS = ["columns >= 1 (columns = 0 is a ZeroDivisionError in the library: tie-checked only)",
                "str arguments contain no ESC (fmtstr(str) would parse them; covered by C17)",
                "whitespace = the regex class \\s of the live `re` module (read per run for the code points used)"]
 
-LEVEL_NOTE = ("PARTIAL PROOF: the Lean theorems cover `no line longer than columns`, `no exception for columns >= 1` and "
-              "`wordless text gives []` for every Unicode environment and run layout (C16_len_partial, C16_total_partial, "
-              "C16_wordless_partial); the greedy-fit rule, long-word chopping, word order/formatting and joining-space "
-              "formatting are stated in Lean (C16_full_statement) but established only by the exhaustive model/implementation "
-              "correspondence plus the independent greedy-wrap oracle on every run. Trusted: Lean kernel + "
-              "propext/Classical.choice/Quot.sound, the hand-written model, the wire codec; CPython `re`/cwcwidth are modelled "
-              "(their tables are read live per run), not verified")
+LEVEL_NOTE = ("FULL PROOF: C16_full proves the whole statement for every Unicode environment and run layout (words/gaps = maximal "
+              "runs of the per-character view, greedy fit rule, chopping into full-length pieces, one joining space carrying "
+              "the attributes common to the whole gap), with plain-terms corollaries C16_len, C16_total, C16_wordless, "
+              "C16_clean_lines, C16_words_kept. Trusted: Lean kernel + propext/Classical.choice/Quot.sound, the hand-written "
+              "model (tied to /repo by the exhaustive per-run correspondence), the wire codec; CPython `re` (`\\s+` = maximal "
+              "runs of \\s characters) is modelled, its character class is read live per run")
 ALPHA = ("a", "b", " ", "\t", "\n")
 PA = {"fg": 31, "bold": True}
 PB = {"fg": 31, "underline": True}
@@ -67,6 +69,17 @@ def extra_cases(ctx):
         for columns in (1, 2, 3):
             extra.append(dict(op="linesplit_str", f=[(s, {})], columns=columns))
         extra.append(dict(op="linesplit", f=[(s, dict(PA))], columns=0))
+    for s in all_strings(4 if ctx.thorough else 3):
+        for ch in layouts_for(s)[:2]:
+            for spec in shared_variants(ch, other=[(" ", dict(PC))]):
+                fields = shared_case_fields(spec)
+                for columns in (1, 2, 3, 5):
+                    extra.append(dict(op="linesplit", columns=columns, **fields))
+    for _ in range(300 if ctx.thorough else 80):
+        seed = r.randrange(1 << 30)
+        for i in range(pool_size(seed)):
+            extra.append(dict(op="linesplit", f=wire.fmt_chunks(pool_object(seed, i)), pool=[seed, i],
+                              columns=r.randint(1, 6)))
     alpha = ["a", "b", "c", "\u00e9", "\uff25"] + MORE_WS
     for _ in range(8000 if ctx.thorough else 2000):
         n = r.randint(6, 24)
@@ -85,11 +98,14 @@ def line(c):
 def run_impl(c):
     if c["op"] == "linesplit_str":
         return linesplit(text_of(c["f"]), c["columns"])
-    return linesplit(mk_fmt(c["f"]), c["columns"])
+    return linesplit(realize(c), c["columns"])
 
 
-def impl(c):
+def _impl(c):
     return guarded(lambda: reply_fmt_list(run_impl(c)))
+
+
+impl = safe_impl(_impl)
 
 
 # ------------------------------------------------------------------------------------------------ oracle
@@ -143,7 +159,7 @@ def reference_wrap(cs, columns):
     return lines
 
 
-def oracle(c):
+def _oracle(c):
     if c["columns"] < 1:
         return None
     cs = wire.cells_of_chunks(c["f"])
@@ -175,6 +191,9 @@ def oracle(c):
             elif x != y:
                 return "line %d: character %r differs from the word character %r" % (k, x, y)
     return None
+
+
+oracle = safe_oracle(_oracle)
 
 
 def footprint(c, what):
